@@ -62,6 +62,21 @@ def gen_plan(rng, tier):
                   {'at': round(t1 + rng.choice([0.05, 0.2, 0.4, 0.7, 1.0, 1.5, 2.0]), 3), 'kind': rng.choice(['ev_removed', 'ev_removed', 'crash']),
                    'node': i, 'how': 'rst', 'announce': 0.01}]
         slow = {'node': i, 'mult': rng.choice([10, 30, 60])}
+        if rng.random() < 0.5:
+            # ... or it flaps while a slow reconnection probe of an earlier, meanwhile cancelled, reconnector is still connecting
+            t = t1
+            events = events[:2]
+            for kind in ['ev_up_dup', 'crash', 'restart', 'crash', 'restart'][:rng.choice([2, 4, 5])]:
+                t += rng.choice([0.1, 0.3, 0.6, 1.0])
+                events.append({'at': round(t, 3), 'kind': kind, 'node': i, 'how': 'rst', 'announce': rng.choice([None, 0.01])})
+            if rng.random() < 0.5:
+                # denser: UP events and connection resets every few hundred milliseconds while probes take that long
+                t = t1
+                events = events[:2]
+                for _ in range(rng.choice([3, 5, 7])):
+                    t += rng.choice([0.05, 0.1, 0.2, 0.4])
+                    events.append({'at': round(t, 3), 'kind': rng.choice(['ev_up_dup', 'rst_pool', 'rst_pool', 'ev_up_dup', 'rst_control']), 'node': i,
+                                   'how': 'rst', 'announce': None})
     elif rng.random() < 0.2:
         # an UP event for a node that is (still or again) down, arriving while its reconnector is waiting for its next attempt:
         # on_up runs, pool creation fails, and the host must end up with a reconnector again
@@ -75,12 +90,28 @@ def gen_plan(rng, tier):
         if rng.random() < 0.3:
             events.append({'at': round(t1 + rng.choice([0.3, 1.0]), 3), 'kind': rng.choice(['ev_up_dup', 'ev_down_stale', 'rst_control']), 'node': rng.randrange(n),
                            'how': 'rst', 'announce': None})
+    fixed = {}
+    if slow is None and rng.random() < 0.2:
+        # a slow reconnection probe is in flight when an UP event arrives; the pools that on_up tries to open are refused, so a
+        # new reconnector takes over - and then the old, cancelled reconnector's probe completes successfully
+        i = rng.randrange(1, n)
+        d = rng.choice([2.5, 3.0])
+        events = [{'at': 0.4, 'kind': 'crash', 'node': i, 'how': 'rst', 'announce': 0.01},
+                  {'at': 0.5, 'kind': 'restart', 'node': i, 'how': 'rst', 'announce': None}]
+        T = 0.4 + d + rng.choice([0.02, 0.05, 0.1, 0.2])
+        events += [{'at': round(T, 3), 'kind': 'refuse_pool_once', 'node': i, 'how': 'rst', 'announce': None},
+                   {'at': round(T + 0.005, 3), 'kind': 'ev_up_dup', 'node': i, 'how': 'rst', 'announce': None}]
+        if rng.random() < 0.5:
+            events.append({'at': round(T + rng.choice([0.8, 1.5]), 3), 'kind': rng.choice(['ev_removed', 'crash', 'rst_pool']), 'node': i, 'how': 'rst', 'announce': 0.01})
+        slow = {'node': i, 'mult': rng.choice([30, 60])}
+        fixed = {'window': 0, 'reconnect_delay': d}
     plan_ = {'cluster': default_cluster_spec(n), 'version': 4, 'events': events, 'sessions': rng.choice([1, 1, 2]), 'slow_connect': slow,
             'executor_threads': rng.choice([1, 2, 4]), 'window': rng.choice([0, 0.2, 1.0]),
             'reconnect_delay': rng.choice([0.3, 0.7, 1.5]), 'traffic': rng.random() < 0.6,
             'strategy': gen_strategy(rng), 'time_jump_p': 0, 'line_p': rng.choice([0, 0, 0.005]), 'points': rng.choice([0, 2, 4]),
             'stalls': gen_stalls(rng, ['on_up', 'on_down', '_start_reconnector', 'on_remove', '_on_up_future_completed', 'run'], 0.25)}
     plan_.update(plan_.pop('stalls'))
+    plan_.update(fixed)
     return plan_
 
 
@@ -94,6 +125,22 @@ def run_plan(plan, seed, choices=None):
     H = cpool._HostReconnectionHandler
     hlog = []        # (seq, t, handler serial, host addr, kind)
     serials = {}
+    live = {}        # Host -> reconnection handlers started and neither cancelled, successful nor exhausted
+    untracked = {}   # Host -> virtual time since when its only live handler has not been the one the Host refers to
+    untracked_bad = []
+
+    def track_monitor():
+        # "exactly one active reconnection series": the series that is alive must be the one Host._reconnection_handler names,
+        # or nobody can cancel it any more (transitions swap the two in two steps, hence the 2 s of grace)
+        for host, hs in live.items():
+            if len(hs) == 1 and host._reconnection_handler not in hs:
+                t0 = untracked.setdefault(host, sim.vnow())
+                if sim.vnow() - t0 > 2.0 and len(untracked_bad) < 2:
+                    untracked_bad.append((sim.nlog, str(host.endpoint.address), t0, sim.vnow(), hid(next(iter(hs)))))
+                    untracked[host] = 1e18
+            else:
+                untracked.pop(host, None)
+    sim.monitors.append(track_monitor)
 
     def hid(h):
         if id(h) not in serials:
@@ -106,14 +153,24 @@ def run_plan(plan, seed, choices=None):
         def wrapper(self, *a, **k):
             if not after:
                 hlog.append((sim.nlog, sim.vnow(), hid(self), str(self.host.endpoint.address), kind, getattr(self, '_cancelled', False)))
+                sim.rec('reconnector', '%s h%d %s' % (kind, hid(self), self.host.endpoint.address))
+                if kind == 'start':
+                    if not getattr(self, '_cancelled', False):      # (a handler replaced before it was started is inert: its run() returns at once)
+                        live.setdefault(self.host, set()).add(self)
+                elif kind in ('cancel', 'success'):
+                    live.get(self.host, set()).discard(self)
+            elif kind == 'exception' and len(a) > 1 and a[1] is None:
+                live.get(self.host, set()).discard(self)          # schedule exhausted
             r = orig(self, *a, **k)
             if after:
-                hlog.append((sim.nlog, sim.vnow(), hid(self), str(self.host.endpoint.address), kind, a[1] if kind == 'exception' and len(a) > 1 else None))
+                hlog.append((sim.nlog, sim.vnow(), hid(self), str(self.host.endpoint.address), kind,
+                             (a[1] if kind == 'exception' and len(a) > 1 else None) if kind != 'attempt-done' else getattr(self, '_cancelled', False)))
             return r
         set_knob(H, name, wrapper)
     wrap('start', 'start')
     wrap('cancel', 'cancel')
     wrap('try_reconnect', 'attempt')
+    wrap('try_reconnect', 'attempt-done', after=True)       # (logged only when the probe succeeded) cancelled flag right before run() checks it
     wrap('on_reconnection', 'success')
     wrap('on_exception', 'exception', after=True)
     if plan.get('line_p') or plan.get('points') or plan.get('focus_stall'):
@@ -269,13 +326,19 @@ def run_plan(plan, seed, choices=None):
             if h.is_up is False and st.get('active_end', {}).get(addr, 0) != 1:
                 V.add('C25/single-reconnector', 'down-host-without-reconnector',
                       'host %s is marked down at the end of the run with %d active reconnection series' % (addr, st.get('active_end', {}).get(addr, 0)))
+    for (seq, addr, t0, t1, h) in untracked_bad:
+        V.add('C25/single-reconnector', 'live-reconnector-not-tracked-by-host',
+              'host %s: reconnection handler %d has been running since before t=%.2f, but from t=%.2f to t=%.2f (seq %d) Host._reconnection_handler did not '
+              'refer to it: nothing can cancel it when the host comes up or is removed' % (addr, h, t0, t0, t1, seq))
     # ---- a handler cancelled while its probe was connecting must stay silent
     for addr, evs in by_host.items():
         for (seq, t, h, a, kind, extra) in evs:
             if kind == 'success':
                 V.check('C25/no-reconnect-removed')
                 if extra:
-                    V.add('C25/no-reconnect-removed', 'cancelled-reconnector-reported-success',
+                    done = [x for x in evs if x[4] == 'attempt-done' and x[2] == h and x[0] < seq]
+                    window = bool(done) and not done[-1][5]
+                    V.add('C25/no-reconnect-removed', 'cancelled-reconnector-reported-success' + (':cancelled-between-check-and-report' if window else ''),
                           'host %s: reconnection handler %d had been cancelled (host marked up, removed, or handler replaced) while its probe was '
                           'connecting, yet it reported the reconnection at seq %d' % (addr, h, seq))
                     break
